@@ -51,6 +51,22 @@ PLAN = {
                   R("exhaustive", "^TestExhaustive$", shards=16, env={"C08_EXH_SEGS": 2, "C08_EXH_SUBSET": 3, "C08_EXH_PATHLEN": 7}, timeout=3000),
                   R("random", "^TestRandom$", checks=200000, shards=16, timeout=3000)],
     ),
+    "C09": dict(
+        pkg="c09", level="exploration",
+        technique="differential testing of hostname matching against the reference matcher over generated and exhaustively enumerated Host values, plus a metamorphic relation (Host ignored when the method has no hostname routes)",
+        level_text="Route sets mixing hostname and path-only patterns are probed with Host values that are exact, carry a port or trailing dot, "
+                   "extend / truncate / neighbour a registered hostname, are IP literals or empty; the reference requires label-for-label equality "
+                   "after stripping and decides when the path-only fallback applies. All hosts over {a b .} up to a bound are enumerated against all pattern pairs.",
+        level_note="Well-formed Host values only (malformed host:port is documented as 'unchanged'); arbitrary strings are used only in the metamorphic relation.",
+        rule="cases: (route set, request); non-trivial = the Host extends, truncates, contains or neighbours a registered hostname, or a hostname route was selected; distinct by (method, sorted patterns, host, path)",
+        assumptions=["reference matcher + StripHost (port and one trailing dot) encode the documented rules"],
+        quick=[REPLAY,
+               R("exhaustive", "^TestExhaustive$", env={"C09_HOSTLEN": 4}, timeout=900),
+               R("random", "^TestRandom$", checks=25000, timeout=900)],
+        thorough=[REPLAY,
+                  R("exhaustive", "^TestExhaustive$", shards=16, env={"C09_HOSTLEN": 6}, timeout=3000),
+                  R("random", "^TestRandom$", checks=200000, shards=16, timeout=3000)],
+    ),
     "C10": dict(
         pkg="c10", level="exploration",
         technique="differential testing of the pattern parser against an independent split-based grammar recogniser (exhaustive small-alphabet enumeration, rapid generation, native fuzzing) plus an instantiate-route-substitute-back round trip",
